@@ -961,6 +961,7 @@ class World:
                         self.counters['R1'] += 1
                 field_edits(v['fields'], v['name'])
         self.counters['R1'] += len(it['attrs'])
+        serde_obl = self._serde_attrs(it, modpath)
         body = apply_edits(src, it['start_no_attrs'], it['span'][1], edits).decode()
         # R6: prost re-exports of alloc are the std types
         n6 = body.count('::prost::alloc::')
@@ -1004,8 +1005,46 @@ class World:
         if opts and opts.extra:
             gen += opts.extra + '\n'
         out.w(gen)
+        out.w(serde_obl)
 
     # ------------------------------------------------------------------ consts (R5)
+    def _serde_attrs(self, it, modpath):
+        """R1 drops `#[serde(..)]` attributes: the JSON shape of messages and stored values is not modelled.  Closed world:
+        the attributes a world expects (world.json `serde_attrs.expected`, e.g. the ibc-hooks callback names of SudoMsg) become
+        ground obligations `<found text> == <expected text>`; any OTHER serde attribute on an extracted type (rename, default,
+        skip, flatten ..) may change what is stored or decoded, so every function that mentions the type is undecided."""
+        cfgs = self.cfg.get('serde_attrs') or {}
+        exp = cfgs.get('expected', {})
+        name = it['name']
+        found = {}
+        def note(where, attrs):
+            for a in attrs:
+                if a['path'] == 'serde':
+                    found.setdefault(where, []).append(re.sub(r'\s+', ' ', a['text']))
+        note(name, it['attrs'])
+        if it['kind'] == 'struct':
+            for f in it['fields']['fields']:
+                note(f'{name}.{f["name"]}', f['attrs'])
+        else:
+            for v in it['variants']:
+                note(f'{name}::{v["name"]}', v['attrs'])
+                for f in v['fields']['fields']:
+                    note(f'{name}::{v["name"]}.{f["name"]}', f['attrs'])
+        mine = {k: v for k, v in exp.items() if k == name or k.startswith(name + '::') or k.startswith(name + '.')}
+        text = ''
+        labs = ' '.join(f'[{p}.wire-names-{name}]' for p in cfgs.get('labels', []))
+        for where in sorted(set(mine) | set(found)):
+            got = ' '.join(found.get(where, []))
+            if where in mine:
+                want = mine[where]
+                fid = re.sub(r'\W+', '_', where)
+                text += (f'\n// {labs}  (serde attribute of {where})\npub proof fn serde_attr_{fid}()\n    ensures {rust_str(got)}@ == {rust_str(want)}@\n'
+                         f'{{ reveal_strlit({rust_str(got)}); reveal_strlit({rust_str(want)}); }}\n')
+            else:
+                self.degraded[f'{modpath}::{name}'] = (f'unsupported: `{got}` on {where}: serde attributes change the stored / decoded representation, '
+                                                       f'which the abstract store does not model')
+        return text
+
     def _emit_const(self, out, src, m, modpath, it):
         key = (modpath, it['name'])
         if key in self.vc.skips:
